@@ -110,6 +110,11 @@ class CaseTimeout(BaseException):
     also repeats every second after it first fires, in case some `except BaseException` / `finally` path does."""
 
 
+class HarnessError(BaseException):
+    """The machinery itself cannot do its job (a tool is missing, the MODEL - not the code under test - is wrong, a generated
+    input fails its own sanity check).  Never reported as a violation: the run aborts with exit status 2."""
+
+
 class CallTimeout(BaseException):
     """One library call exceeded its own wall-clock horizon (see call_with_timeout)."""
 
@@ -449,6 +454,8 @@ def run_case(space: Space, idx: int, case, R: Recorder) -> None:
     signal.setitimer(signal.ITIMER_REAL, space.case_timeout, 1.0)
     try:
         space.check(case, R)
+    except HarnessError:
+        raise
     except CaseTimeout:
         R.fail("timeout", f"case exceeded {space.case_timeout}s wall clock", "timeout")
     except RecursionError as e:
@@ -494,7 +501,7 @@ def _work(task):
             run_case(space, idx, case, R)
             if R.n_viol and _VIOL_FLAG is not None and not _VIOL_FLAG.value:
                 _VIOL_FLAG.value = 1
-    except Exception:  # enumeration itself failed: harness bug
+    except (Exception, HarnessError):  # enumeration itself failed / the machinery reports that it cannot work: harness error
         return {"space": space.name, "harness_error": traceback.format_exc()}
     res = R.result()
     res["stopped_early"] = stopped or R.stopped_early
